@@ -487,6 +487,37 @@ def enumerate_write_cases(tier):
                        "rgo_kind": "none" if rgo is None else "list", "rgo": rgo}
 
 
+    # partition column names that CONTAIN one another (suffix / prefix / inner substring), both orders, hive layout: the key of a level
+    # must be matched exactly, never as a substring of the path text; values differ between the columns (different pool offsets,
+    # different kinds) so that a value taken from the wrong level shows
+    for names in RELATED_NAMES:
+        for order in (names, names[::-1]):
+            for kinds in (("int64",) * len(order), ("str_plain", "int64", "str_plain")[:len(order)], ("int64", "str_num", "int64")[:len(order)]):
+                for pattern in ("full", "diag"):
+                    n += 1
+                    rg = ["none", "int", "list"][n % 3]
+                    rows = [6, 13][n % 2]
+                    yield {"scheme": "hive",
+                           "keys": [{"name": nm, "kind": kd, "card": 2 + (n + i) % 2, "off": (1 + 2 * i) % 5} for i, (nm, kd) in enumerate(zip(order, kinds))],
+                           "rows": rows, "pattern": pattern, "nulls": False, "bundle": BUNDLES[n % 2], "unused": False,
+                           "rgo_kind": rg, "rgo": rgo_for(rg, rows)}
+
+
+# names one of which is a suffix / prefix / inner substring of another (never a value-column name of the bundles V0, V1 used with them)
+RELATED_NAMES = [("grid", "id"), ("ab", "b"), ("x", "xx"), ("year_month", "month"), ("kk", "k", "akkb")]
+
+
+def name_relation(names):
+    """how the partition column names relate as texts"""
+    rel = set()
+    for a in names:
+        for b in names:
+            if a != b and a in b:
+                rel.add("suffix" if b.endswith(a) and not b.startswith(a) else "prefix" if b.startswith(a) and not b.endswith(a)
+                        else "prefix+suffix" if b.startswith(a) else "inner")
+    return "+".join(sorted(rel)) or "unrelated"
+
+
 def _has_cat(kinds):
     return any(k.startswith("cat_") for k in kinds)
 
@@ -510,7 +541,8 @@ def features_of(spec):
             "rows": spec["rows"], "pattern": spec["pattern"], "null_keys": bool(spec["nulls"]),
             "unused_categories": bool(spec["unused"]), "values": spec["bundle"], "rgo": spec["rgo_kind"],
             "null_tail": bool(spec.get("null_tail_key")),
-            "all_null_row_group_with_categorical_key": _null_row_group_hazard(spec)}
+            "all_null_row_group_with_categorical_key": _null_row_group_hazard(spec),
+            "names": "+".join(k["name"] for k in spec["keys"]), "name_relation": name_relation([k["name"] for k in spec["keys"]])}
 
 
 DRILL_MIXED = [["007", "abc"], ["1", "x1", "2.5"], ["True", "maybe", "False"], ["2020-01-01", "someday", "7"],
@@ -629,7 +661,9 @@ def run_bounded(ctx):
                       "ParquetFile(dir).to_pandas()/.cats; 1 key: 23 kinds x {hive,drill} x cardinality {1,2,5} x "
                       "row_group_offsets {None,int,list}; 2 keys: 10x10 kinds x {all combinations, diagonal only}; "
                       "3 keys: 20 triples x 3 patterns; rows 1..60, null keys, unused categories, 4 value-column bundles "
-                      "(int, float+NaN, str+None, bool, datetime, categorical, Int64, uint8)")
+                      "(int, float+NaN, str+None, bool, datetime, categorical, Int64, uint8); partition column NAMES containing one another "
+                      "(grid+id, ab+b, x+xx, year_month+month, kk+k+akkb: suffix / prefix / inner substring) in both orders, hive, 3 kind "
+                      "combinations x 2 patterns, values differing between the columns")
     ctx.bounded_group(GM, rule="drill levels mixing re-typable and plain text, 5 value sets x PYTHONHASHSEED 0..3 (thorough 0..7) in child "
                       "processes; the case holds only if it holds under every hash seed")
 
